@@ -69,6 +69,9 @@ def case(draw):
                 off = Fr(0)
             params.append((str(s), str(off)))
         c["custom"] = {"dim": draw(st.sampled_from(["temperature", "angle"])), "params": params}
+        if draw(st.integers(0, 2)) == 0:
+            # history: the same registry first held other definitions of tX / tY and served conversions with them
+            c["custom"]["pre"] = [(str(draw(st.fractions(min_value=Fr(1, 8), max_value=64, max_denominator=8))), str(draw(st.fractions(min_value=-100, max_value=100, max_denominator=4)))) for _ in range(2)]
         pool = ["tX", "tY", "tX", "tY", "ktX", "mtY", "utX", "SI"]
         c["units"] = [draw(st.sampled_from(pool)) for _ in range(3)]
     c["dtype"] = draw(st.sampled_from(DTYPES))
@@ -90,6 +93,21 @@ def _registry(case):
     dim = getattr(D, cu["dim"])
     si = "K" if cu["dim"] == "temperature" else "rad"
     model = {"SI": (Fr(1), Fr(0), si)}
+    if cu.get("pre"):
+        from unyt import Unit, unyt_array
+
+        for nm, (s, off) in zip(("tX", "tY"), cu["pre"]):
+            reg.add(nm, float(Fr(s)), dim, offset=float(Fr(off)), prefixable=True)
+        names = ["tX", "tY", "ktX", "mtY", "utX", si]
+        for a_ in names:
+            for b_ in names:
+                try:
+                    ua, ub = Unit(a_, registry=reg), Unit(b_, registry=reg)
+                    q_ = unyt_array([1.0, 2.0], ua)
+                    q_.to(ub), q_.to(b_), q_.in_units(ub), ua.get_conversion_factor(ub), q_.to_value(b_)
+                    q_.convert_to_units(b_)
+                except Exception:
+                    pass
     for nm, (s, off) in zip(("tX", "tY"), cu["params"]):
         s, off = Fr(s), Fr(off)
         reg.add(nm, float(s), dim, offset=float(off), prefixable=True)
